@@ -25,7 +25,7 @@ P = {
          "bounded-exhaustive input enumeration", "strings <=3-4 symbols over a boundary alphabet"),
  "C12": ("every program of the bounded family run under virtual and real traps; halting and faulting runs compared per the property", "paired-run enumeration over a bounded program family", "program family bounded; horizon-ended runs are counted, not judged"),
  "C13": ("explicit-state BFS over histories of run/step/breakpoint/MCR operations on the real simulator, each operation compared with a twin driven only by step_in and the documented stop rules; states deduplicated by an implementation fingerprint",
-         "explicit-state BFS over operation histories + step-wise reference executor", "6 programs (+1 deep-recursion program on fixed histories); 24 operations; depth <=5 quick/8 thorough"),
+         "explicit-state BFS over operation histories + step-wise reference executor", "8 programs (two under real traps raising exceptions; +1 deep-recursion program on fixed histories); 24 operations; depth <=5 quick/8 thorough; plus a comparator family (8 comparators x 8 operands x register/memory x 4 run styles)"),
  "C14": ("paired strict/non-strict runs from identical Known-initialised machines over the bounded program family and targeted jump/IO/blkw/stack programs; plus fully-initialised machines", "paired-run enumeration", "bounded program family"),
  "C15": ("per-bit truth tables for AND/NOT (complete) and all completions of uninitialised bits over mask/base grids for ADD/SUB/AND/NOT; fully-initialised operands over boundary x all (quick) or all 2^32 pairs (thorough)",
          "exhaustive completion enumeration through hook H1", "mask positions {0,1,2,14,15}"),
@@ -45,9 +45,9 @@ P = {
  "C27": ("all programs of <=4 call/return instructions x debug frames on/off x one interrupt at every boundary x registered signatures; depth and frame entries compared with a reference counter", "bounded program + interrupt-placement enumeration", "instruction alphabet of ~10"),
  "C28": ("the all-words sweep and the bounded program family with the reference interpreter's access log compared with the observer per step and per run", "exhaustive sweep + reference access log", "non-strict mode (property precondition)"),
  "C29": ("every object of the family loaded under Known/Seeded/Unseeded strategies with full 64K before/after comparison; twice; after execution", "exhaustive object-family x strategy enumeration", "family bounded"),
- "C30": ("explicit-state BFS over configuration/execution histories with reset appended after every prefix, compared with a fresh simulator", "explicit-state BFS over operation histories", "depth <=4 quick/5 thorough"),
+ "C30": ("explicit-state BFS over configuration/execution histories with reset appended after every prefix, compared with a fresh simulator", "explicit-state BFS over operation histories", "27 operations; depth <=4 quick/7 thorough"),
  "C31": ("grid of seeds x strategies x timer ranges x programs, two independently built simulators compared step by step", "paired-run enumeration over a configuration grid", "grid is finite"),
- "C32": ("explicit-state BFS over add/remove/set/mmap/munmap/read/write histories with recording devices against a port-table reference; fingerprint is the real handler's Debug state", "explicit-state BFS + reference port table", "depth <=4 quick/5 thorough"),
+ "C32": ("explicit-state BFS over add/remove/set/mmap/munmap/read/write histories with recording devices against a port-table reference; fingerprint is the real handler's Debug state", "explicit-state BFS + reference port table", "41 operations; depth <=4 quick/7 thorough"),
  "C33": ("every pattern of <=k lock holds (by the harness holding the real RwLock) over instruction boundaries (quick) or individual lock attempts via hook H3 (thorough) of echo programs; all 2^n patterns for single-byte programs", "deviation-bounded schedule enumeration over try-lock answers", "other thread only holds/appends/drains"),
  "C34": ("every sample sequence (hook H2 branches over the whole range at each sample) for all small ranges and exact counts, with enable/disable/reset deviations, against a countdown reference", "exhaustive environment-answer enumeration through hook H2", "ranges within 0..=4, exact n<=8; one supplementary sub-check (the timer on its own generator, unseeded and under 3 seeds, 4000 polls per range) is a sound membership test on sampled draws, not an exhaustive exploration, and is counted separately in the evidence"),
  "C35": ("complete: every i16 and u16 for every N in 1..=16 through new and new_trunc", "complete enumeration", "none beyond the arithmetic reference"),
